@@ -18,6 +18,16 @@ empty bucket):
   ("other", spec) = insert into the second bucket   ("reset", None) = delete_bucket + create_bucket
   ("alias", ([spec..], [index..])) = bulk insert of a list in which the SAME Event object occurs at every
   position that carries the same index (n * [event], [e, other, e]): each occurrence is one inserted event
+  ("unread", {"acks": [spec..], "fault": kind, "after": [spec..]})  (round 5) single inserts whose ids are handed
+  back (ACKNOWLEDGED) and that are NOT read back - a read commits on sqlite, so with a listing after every step
+  nothing is ever pending -, then a bulk insert that FAILS inside the engine and that the caller survives (kind
+  "stale": through the Bucket object of a bucket that was deleted meanwhile; "missing": through a Bucket built
+  for an id that never existed; "big-id": a list holding one event that carries the id 2**63, which no SQLite
+  INTEGER holds), then further single inserts, still unread; only then the listing and the lookups.  On the
+  unchanged tree each fault leaves every back end as it was (memory / peewee KeyError, sqlite IntegrityError;
+  2**63: memory returns, sqlite / peewee OverflowError).  Oracle: every acknowledged id still names its event
+  (listing and lookup) and no id was handed out twice.  The failing call is the fault, not an operation of the
+  property: it is not sent to the store models.
 """
 import copy
 import shutil
@@ -26,7 +36,8 @@ import tempfile
 from . import c01 as base
 from . import store_hist as sh
 
-HIST_KINDS = ("del", "rep", "rlast", "ups", "other", "reset", "alias")
+HIST_KINDS = ("del", "rep", "rlast", "ups", "other", "reset", "alias", "unread")
+FAULTS = ("stale", "missing", "big-id")
 
 
 def is_history(steps):
@@ -45,6 +56,8 @@ def specs_of(kind, arg):
         return [s for _, s in arg]
     if kind == "alias":
         return [arg[0][i] for i in arg[1]]
+    if kind == "unread":
+        return list(arg["acks"]) + list(arg["after"])
     return []
 
 
@@ -62,6 +75,8 @@ def shape(steps):
             out.append(f"many({len(a)})")
         elif k == "alias":
             out.append("alias" + str(list(a[1])))
+        elif k == "unread":
+            out.append(f"unread[{len(a['acks'])} x one, failing bulk insert ({a['fault']}), {len(a['after'])} x one]")
         else:
             out.append(k)
     return out
@@ -83,6 +98,8 @@ def step_json(kind, arg):
         return [kind, [[k, sj(s)] for k, s in arg]]
     if kind == "alias":
         return [kind, [[sj(s) for s in arg[0]], list(arg[1])]]
+    if kind == "unread":
+        return [kind, {"acks": [sj(s) for s in arg["acks"]], "fault": arg["fault"], "after": [sj(s) for s in arg["after"]]}]
     return [kind, arg]
 
 
@@ -97,6 +114,8 @@ def step_unjson(kind, j, spec):
         return (kind, [(k, spec(s)) for k, s in j])
     if kind == "alias":
         return (kind, ([spec(s) for s in j[0]], list(j[1])))
+    if kind == "unread":
+        return (kind, {"acks": [spec(s) for s in j["acks"]], "fault": j["fault"], "after": [spec(s) for s in j["after"]]})
     return (kind, j)
 
 
@@ -116,6 +135,8 @@ def pool_specs():
                     "off": base.OFFSETS[i % len(base.OFFSETS)],
                     "d": (0, 1, 1_000_000, 1_500_001, base.DAY + 1, 999)[i % 6],
                     "x": copy.deepcopy(base.DATA_CORPUS[i % len(base.DATA_CORPUS)]) if i % 5 == 4 else {"name": i}})
+        if i % 8 == 3:       # a datetime in a PEP 495 zone beside its offset change (fold=1 / fold=0 / gap): harness/c01.py zoned
+            out[-1] = base.zoned(out[-1], ("fold-second-pass", "gap-after", "fold-end")[i // 8])
     return out
 
 
@@ -148,6 +169,14 @@ def history_corpus():
     out.append(("hist-alias", one() + [("alias", ([s()], [0, 0]))] + one() + [("alias", ([s(), s()], [0, 1, 0])), ("del", 1)]
                 + [("alias", ([s()], [0, 0, 0]))] + one() + [("alias", ([s(), s(), s()], [2, 0, 1, 0, 2]))] + one()))
     out.append(("hist-empty-first", [("del", 0), ("rlast", s()), ("ups", [(0, s())])] + one() + [("del", 0)] + one(2)))
+    # acknowledged single inserts that are not read back, a bulk insert that fails inside the engine, more inserts
+    for f in FAULTS:
+        for na, nb in ((1, 0), (2, 1), (3, 2)):
+            out.append((f"hist-unread-{f}-{na}-{nb}",
+                        one(2) + [("unread", {"acks": [s() for _ in range(na)], "fault": f, "after": [s() for _ in range(nb)]})]
+                        + one() + [("del", 0), ("unread", {"acks": [s()], "fault": f, "after": []})] + one()))
+    out.append(("hist-unread-first", [("unread", {"acks": [s(), s()], "fault": "stale", "after": [s()]}),
+                                      ("unread", {"acks": [s()], "fault": "big-id", "after": [s()]})] + one()))
     return out
 
 
@@ -174,9 +203,12 @@ def random_history(rng, n):
             steps.append(("ups", [(rng.choice([None, None, rng.randrange(-2, 6)]), s()) for _ in range(rng.choice([1, 2, 3, 4]))]))
         elif r < 0.95:
             steps.append(("other", s()))
-        elif r < 0.98:
+        elif r < 0.975:
             specs = [s() for _ in range(rng.choice([1, 1, 2, 3]))]
             steps.append(("alias", (specs, [rng.randrange(len(specs)) for _ in range(rng.choice([2, 3, 4]))])))
+        elif r < 0.99:
+            steps.append(("unread", {"acks": [s() for _ in range(rng.choice([1, 1, 2, 4]))], "fault": rng.choice(FAULTS),
+                                     "after": [s() for _ in range(rng.choice([0, 1, 2]))]}))
         else:
             steps.append(("reset", None))
     steps.append(("one", s()))
@@ -271,6 +303,11 @@ def run_step(env, si, kind, arg, before):
         if ex is not None:
             fails.append(("insert-raised", f"bulk insert raised {type(ex).__name__}: {ex}", si))
             return before
+    elif kind == "unread":
+        acked = unread_step(env, si, arg, fails)
+        if acked is None:
+            return before
+        new_payloads = [base.expected(x) for x in arg["acks"] + arg["after"]]
     elif kind == "other":
         r, ex = record([5, 2, spec_w(arg)], lambda: ds["b2"].insert(base.mk_event(arg)),
                        lambda r: [1, [ev_w(base.observed(r))]])
@@ -317,6 +354,17 @@ def run_step(env, si, kind, arg, before):
         if i in data_eq and data_by_id[i] != data_eq[i]:
             fails.append(("replaced-data", f"event {i} after {kind}: data is not == to the data written", si))
             break
+    if kind == "unread":
+        # the ids were handed back: each must still name its event, in the listing and (below) by lookup
+        for i, spec in acked:
+            if i not in after:
+                fails.append(("acknowledged-lost", f"insert returned id {i} (not read back), a later bulk insert failed "
+                              f"({arg['fault']}) and the caller went on: the event is no longer listed", si))
+                break
+            d = base.payload_diff(base.expected(spec), after[i], spec["x"], data_by_id[i])
+            if d:
+                fails.append(("acknowledged-" + d[0], f"event {i} (acknowledged, not read back, then a failing bulk insert): " + d[1], si))
+                break
     fresh = sorted(i for i in after if i not in exp)
     still = [i for i in gone if i in after]
     if still:
@@ -350,6 +398,51 @@ def run_step(env, si, kind, arg, before):
         if ex is None and g is not None and i not in after:
             fails.append(("deleted-still-found", f"get_by_id({i}) still returns the deleted event", si))
     return after
+
+
+def unread_step(env, si, arg, fails):
+    """single inserts without a read, a failing bulk insert the caller survives, more single inserts; -> [(id, spec)]
+    of the acknowledged inserts, or None when an insert itself failed"""
+    from aw_core.models import Event
+    from aw_datastore.datastore import Bucket
+    record, bucket, ds, ev_w, spec_w = env.record, env.bucket, env.ds, env.ev_w, env.spec_w
+    handle = None
+    if arg["fault"] == "stale":
+        # the watcher's Bucket object outlives its bucket (created and deleted BEFORE the unread inserts: both commit)
+        handle, _ = record([0, 3, base.META_W], lambda: ds.create_bucket("gone", "s1", "s1", "s1", created=base.CREATED),
+                           lambda r: [5, 3, base.META_W] if env.backend == "sqlite" else [0])
+        record([2, 3], lambda: ds.delete_bucket("gone"), lambda r: [0])
+    elif arg["fault"] == "missing":
+        handle = Bucket(ds, "never-existed")
+    acked = []
+
+    def one(spec):
+        r, ex = record([5, 1, spec_w(spec)], lambda: bucket.insert(base.mk_event(spec)),
+                       lambda r: [1, [ev_w(base.observed(r))] if r is not None else []])
+        if ex is not None or r is None or r.id is None:
+            fails.append(("insert-raised", f"insert raised / returned no id: {ex!r} {r!r}", si))
+            return False
+        if any(r.id == i for i, _ in acked):
+            fails.append(("id-reissued", f"insert returned id {r.id}, which an earlier insert of this run of unread inserts had "
+                          f"already been handed (a bulk insert failed in between: {arg['fault']})", si))
+        acked.append((r.id, spec))
+        return True
+    for spec in arg["acks"]:
+        if not one(spec):
+            return None
+    filler = base.mk_event(arg["acks"][0] if arg["acks"] else {"t": T0, "off": 0, "d": 0, "x": {}})
+    try:                                    # the fault: not an operation of the property, not sent to the models
+        if arg["fault"] == "big-id":
+            big = Event(id=2 ** 63, timestamp=filler.timestamp, duration=filler.duration, data={"big": "id"})
+            bucket.insert([big])
+        elif handle is not None:
+            handle.insert([filler, base.mk_event({"t": T0 + 1000, "off": 0, "d": 1, "x": {"never": "stored"}})])
+    except Exception:  # noqa: BLE001 -- the caller survives the failing batch and goes on
+        pass
+    for spec in arg["after"]:
+        if not one(spec):
+            return None
+    return acked
 
 
 # ---------------------------------------------------------------------------
